@@ -58,7 +58,7 @@ class Sub(object):
     """
 
     def __init__(self, name, strategy, body, nontrivial=None, quick=200, thorough=2000, shards_quick=2,
-                 shards_thorough=16, budget_quick=120.0, budget_thorough=1500.0, classes=()):
+                 shards_thorough=16, budget_quick=120.0, budget_thorough=1500.0, classes=(), cases=None):
         self.name = name
         self.strategy = strategy
         self.body = body
@@ -70,6 +70,9 @@ class Sub(object):
         self.budget_quick = budget_quick
         self.budget_thorough = budget_thorough
         self.classes = tuple(classes)
+        # cases: an explicit finite list of cases that is enumerated completely (split over the shards) instead of being
+        # generated; strategy is then ignored
+        self.cases = cases
 
 
 # ---------------------------------------------------------------------------------------------------------
@@ -178,7 +181,8 @@ def matches_known(entry, sub, clause, case):
 # ---------------------------------------------------------------------------------------------------------
 
 def run_shard(args):
-    prop_id, sub_name, shard, n, seed, budget = args
+    prop_id, sub_name, shard, n, seed, budget = args[:6]
+    nshards_total = args[6] if len(args) > 6 else 1
     t0 = time.time()
     out = {'sub': sub_name, 'shard': shard, 'seed': seed, 'evaluations': 0, 'nt_hashes': [], 'all_hashes': 0,
            'labels': {}, 'discarded': 0, 'excluded_known': {}, 'budget_skipped': 0, 'samples': [],
@@ -233,6 +237,38 @@ def run_shard(args):
             if len(out['samples']) < 3:
                 out['samples'].append({'subcheck': sub_name, 'case': json.loads(canon(case)), 'labels': sorted(lab)})
 
+        if sub.cases is not None:
+            # exhaustive enumeration of a finite case list (this shard's slice); no shrinking needed, cases are atomic
+            nshards = max(1, nshards_total)
+            buckets = {}
+            for case in sub.cases[shard::nshards]:
+                try:
+                    wrapped(case)
+                except BaseException as exc:  # noqa
+                    if isinstance(exc, (KeyboardInterrupt, SystemExit)):
+                        raise
+                    lf = state['last_fail']
+                    if lf is not None and lf['kind'] == 'violation':
+                        # the enumeration continues; one representative per (clause, first case field) bucket is reported
+                        first = sorted(case.items())[0][1] if isinstance(case, dict) and case else ''
+                        key = (lf['clause'], str(case.get('producer', first)) if isinstance(case, dict) else '')
+                        if key not in buckets:
+                            lf = dict(lf)
+                            lf['case'] = json.loads(canon(lf['case']))
+                            buckets[key] = lf
+                    else:
+                        out['harness_error'] = (lf['message'] if lf else ''.join(traceback.format_exception(type(exc), exc, exc.__traceback__)))[-6000:]
+                        break
+            if buckets:
+                out['failures'] = list(buckets.values())
+                out['failure'] = out['failures'][0]
+            out['labels'] = dict(labels)
+            out['nt_hashes'] = sorted(nt)
+            out['all_hashes'] = len(allh)
+            out['excluded_known'] = dict(excluded)
+            out['enumerated'] = len(sub.cases[shard::nshards])
+            out['wall_s'] = time.time() - t0
+            return out
         test = given(sub.strategy)(wrapped)
         test = settings(max_examples=n, database=None, deadline=None, derandomize=False, report_multiple_bugs=False,
                         suppress_health_check=list(HealthCheck), phases=[Phase.generate, Phase.shrink],
